@@ -16,7 +16,8 @@ for d in sorted(glob.glob(os.path.join(VERIF, "seeded", "*", "patch.diff"))):
     if a.returncode != 0:
         res[name] = dict(property=prop, applied=False, note=a.stderr[-300:]); continue
     try:
-        p = subprocess.run([os.path.join(VERIF, "check"), prop], capture_output=True, text=True, timeout=3600)
+        p = subprocess.run([os.path.join(VERIF, "check"), prop], capture_output=True, text=True, timeout=3600,
+                           env=dict(os.environ, VERIF_EVIDENCE_DIR="/var/tmp/verif-seed-evidence"))
     finally:
         subprocess.run(["git", "-C", "/repo", "checkout", "--", "."], check=True)
     lines = [l for l in p.stdout.split("\n") if l.startswith(("VIOLATION", "INFRA", "SUMMARY", "KNOWN"))]
